@@ -13,7 +13,9 @@ heap order (`Proofs.Heapq.HeapFrom ltEntry · 0`):
 * `heapInv0_std` — for the standard child layout with *any* `parent i < i` and `pop` without sift-up (the
   pinned configuration, F1 and F2 present): `pop 0` keeps heap order (`pop0_heap`), and `add` of an element
   newer than all others never swaps (`add_max_heap`), so F1 (wrong parent index) is unreachable from the
-  cache and F2 (no sift-up) is reachable only through removal of an interior slot.
+  cache and F2 (no sift-up) is reachable only through removal of an interior slot;
+* `heapInvB_std` — for the same configurations, `pop` at every offset keeps heap order on heaps of at most
+  4 elements (F2 needs an interior offset `≥ 3`, i.e. at least 5 elements).
 -/
 namespace MdsVerif.Proofs.CacheHeap
 open MdsVerif.Model.Heapq hiding step clear set Op Out S
@@ -66,5 +68,16 @@ theorem heapInv0_std {cfg : Cfg} (hs : Proofs.Heapq.CfgStd cfg) (hc : Proofs.Hea
   pop0 := fun h hh _ => Proofs.Heapq.pop0_heap hs ltEntry_order h hh
   add := fun h v hh hv => Proofs.Heapq.add_max_heap hc h v (newest_max hv) hh
   min := minOK_of_heapOrd
+
+/-- … and, on heaps of at most 4 elements, by `pop` at **every** offset: an offset `< 4` is `≤ 2` (the
+moved element's new parent is the root, `pop_shallow_heap`) or the last slot (`pop_last_heap`); the first
+interior removal that needs a sift-up is at offset 3 of a heap of 5 -/
+theorem heapInvB_std {cfg : Cfg} (hs : Proofs.Heapq.CfgStd cfg) (hc : Proofs.Heapq.CfgOK cfg) :
+    Proofs.Cache.HeapInvB cfg HeapOrd 4 :=
+  { heapInv0_std hs hc with
+    popB := fun h i hh hi hB => by
+      by_cases h2 : i ≤ 2
+      · exact Proofs.Heapq.pop_shallow_heap hs ltEntry_order h i hi h2 hh
+      · exact Proofs.Heapq.pop_last_heap hs.toCfgLayout.left_gt h i (by simp only [H.len]; omega) hh }
 
 end MdsVerif.Proofs.CacheHeap
